@@ -214,9 +214,11 @@ package gohlslib
 //@ func Muxer.handleMultivariantPlaylist$1
 //@   props C07 C08
 //@   requires nolocks() && muxerLinks(m) && len(m.streams) >= 1 && r != nil && r.URL != nil
+//@   requires oneLeader(m) && forall(i, (0 <= i && i < len(m.streams)) ==> m.streams[i] != nil)
 //@   ensures result != nil ==> (!m.closed && m.streams[0].hasContent())
 //@   ensures m.closed ==> result == nil
 //@   loop 1 invariant held(&m.mutex) && muxerLinks(m) && len(m.streams) >= 1
+//@   loop 1 invariant oneLeader(m) && forall(i, (0 <= i && i < len(m.streams)) ==> m.streams[i] != nil)
 //@ end
 
 
@@ -1338,4 +1340,126 @@ package gohlslib
 //@        && pl.PreloadHint != nil && pl.PreloadHint.URI == withQ(partPath(s.prefix, s.id, s.nextPartID), rawQuery))
 //@   atcall playlist.Media.Marshal s.variant != MuxerVariantLowLatency ==> (pl.ServerControl == nil && pl.PartInf == nil && len(pl.Parts) == 0 && pl.PreloadHint == nil)
 //@   reachable calls("playlist.Media.Marshal") == 1
+//@ end
+
+// ---------------------------------------------------------------------------------------
+// MPEG-TS path (C01 / C02 / C03 / C04 / C05 / C18)
+
+//@ func ext:mpegts.Writer.WriteH264
+//@ end
+
+//@ func ext:mpegts.Writer.WriteMPEG4Audio
+//@ end
+
+// size limit (C18) and timestamps (C01): the unit is handed to the TS writer exactly once with 90 kHz
+// timestamps, or rejected with no state change when it would exceed the limit
+//@ func muxerSegmentMPEGTS.writeH264
+//@   props C01 C18
+//@   requires track != nil && track.Track != nil && track.ClockRate > 0 && s.mpegtsWriter != nil && dts <= pts
+//@   requires s.size <= s.segmentMaxSize && s.segmentMaxSize < 4611686018427387904
+//@   requires forall(i, (0 <= i && i < len(au)) ==> len(au[i]) < 1099511627776) && len(au) < 1048576
+//@   modifies s.size, s.endDTS
+//@   loop 1 invariant ri < len(au) && 0 <= size && size <= (ri + 1) * 1099511627776
+//@   ensures s.size <= s.segmentMaxSize
+//@   ensures calls("mpegts.Writer.WriteH264") <= 1
+//@   ensures calls("mpegts.Writer.WriteH264") == 0 ==> (result != nil && s.size == old(s.size) && s.endDTS == old(s.endDTS))
+//@   ensures calls("mpegts.Writer.WriteH264") == 1 ==> (callarg("mpegts.Writer.WriteH264", 0, 1) == track.mpegtsTrack
+//@        && callarg("mpegts.Writer.WriteH264", 0, 2) == multiplyAndDivide(pts, 90000, track.ClockRate)
+//@        && callarg("mpegts.Writer.WriteH264", 0, 3) == multiplyAndDivide(dts, 90000, track.ClockRate)
+//@        && callarg("mpegts.Writer.WriteH264", 0, 4) == ref(au))
+//@   ensures result == nil ==> (calls("mpegts.Writer.WriteH264") == 1 && s.endDTS == timestampToDuration(dts, track.ClockRate) && s.size >= old(s.size))
+//@ end
+
+//@ func muxerSegmentMPEGTS.writeMPEG4Audio
+//@   props C01 C18
+//@   requires track != nil && track.Track != nil && track.ClockRate > 0 && s.mpegtsWriter != nil
+//@   requires s.size <= s.segmentMaxSize && s.segmentMaxSize < 4611686018427387904
+//@   requires forall(i, (0 <= i && i < len(aus)) ==> len(aus[i]) < 1099511627776) && len(aus) < 1048576
+//@   modifies s.size, s.endDTS, s.audioAUCount
+//@   loop 1 invariant ri < len(aus) && 0 <= size && size <= (ri + 1) * 1099511627776
+//@   ensures s.size <= s.segmentMaxSize
+//@   ensures calls("mpegts.Writer.WriteMPEG4Audio") <= 1
+//@   ensures calls("mpegts.Writer.WriteMPEG4Audio") == 0 ==> (result != nil && s.size == old(s.size) && s.endDTS == old(s.endDTS) && s.audioAUCount == old(s.audioAUCount))
+//@   ensures calls("mpegts.Writer.WriteMPEG4Audio") == 1 ==> (callarg("mpegts.Writer.WriteMPEG4Audio", 0, 1) == track.mpegtsTrack
+//@        && callarg("mpegts.Writer.WriteMPEG4Audio", 0, 2) == multiplyAndDivide(pts, 90000, track.ClockRate)
+//@        && callarg("mpegts.Writer.WriteMPEG4Audio", 0, 3) == ref(aus))
+//@   ensures (result == nil && track.isLeading) ==> (s.audioAUCount == old(s.audioAUCount) + 1 && s.endDTS == timestampToDuration(pts, track.ClockRate))
+//@   ensures (result == nil && !track.isLeading) ==> (s.audioAUCount == old(s.audioAUCount) && s.endDTS == old(s.endDTS))
+//@ end
+
+//@ pred listsTS(s *muxerStream, ps *playlist.MediaSegment, j int, q string) := ps != nil && !ps.Gap && len(ps.Parts) == 0
+//@   && ps.Duration == asM(s.segments[j]).endDTS - asM(s.segments[j]).startDTS && ps.URI == withQ(asM(s.segments[j]).path, q)
+//@   && ps.DateTime != nil && *ps.DateTime == asM(s.segments[j]).startNTP
+
+//@ func muxerStream.generateMediaPlaylistMPEGTS
+//@   props C03 C04 C05
+//@   nosafety
+//@   noframe
+//@   nocallpre
+//@   requires held(s.mutex) && forall(i, (0 <= i && i < len(s.segments)) ==> (s.segments[i] != nil && isM(s.segments[i]) && ref(s.segments[i]) != 0))
+//@   loop 1 invariant ri < len(s.segments) && len(pl.Segments) == ri + 1 && forall(k, (0 <= k && k <= ri) ==> listsTS(s, pl.Segments[k], k, rawQuery))
+//@   atcall playlist.Media.Marshal pl.Version == 3 && pl.TargetDuration == s.targetDuration && pl.MediaSequence == s.segmentDeleteCount && pl.AllowCache != nil && !*pl.AllowCache
+//@   atcall playlist.Media.Marshal len(pl.Segments) == len(s.segments) && forall(k, (0 <= k && k < len(pl.Segments)) ==> listsTS(s, pl.Segments[k], k, rawQuery))
+//@   atcall playlist.Media.Marshal pl.Map == nil && pl.Skip == nil && pl.ServerControl == nil && pl.PartInf == nil && pl.PreloadHint == nil && len(pl.Parts) == 0
+//@   reachable calls("playlist.Media.Marshal") == 1
+//@ end
+
+// C02 on the MPEG-TS path: a segment switch happens only at a random-access unit of the video track, always
+// when the open segment has reached SegmentMinDuration or a parameter change is pending, never with force,
+// and the unit is written exactly once after the switch; audio-only streams switch after at least
+// mpegtsSegmentMinAUCount units and SegmentMinDuration.
+//@ pred idrIn(au [][]byte) := exists(i, 0 <= i && i < len(au) && mod(au[i][0], 32) == 5)
+
+//@ func muxerSegmenter.writeH264#mpegts
+//@   props C01 C02
+//@   role writer
+//@   nosafety
+//@   nocallpre
+//@   requires s.variant == MuxerVariantMPEGTS && track != nil && track.Track != nil && track.ClockRate > 0 && track.stream != nil && is(track.Codec, *codecs.H264) && ref(track.Codec) != 0
+//@   requires s.parent != nil && is(s.parent, *Muxer) && ref(s.parent) != 0
+//@   requires forall(i, (0 <= i && i < len(au)) ==> len(au[i]) >= 1)
+//@   requires track.stream.nextSegment != nil ==> (isM(track.stream.nextSegment) && ref(track.stream.nextSegment) != 0)
+//@   modifies *
+//@   loop 1 invariant ri < len(au) && randomAccess == exists(i, 0 <= i && i <= ri && mod(au[i][0], 32) == 5)
+//@   loop 1 invariant nonIDRPresent == exists(i, 0 <= i && i <= ri && mod(au[i][0], 32) == 1)
+//@   loop 1 invariant old(s.pendingParamsChange) ==> s.pendingParamsChange
+//@   loop 1 invariant calls("muxerSegmentMPEGTS.writeH264") == 0 && calls("Muxer.rotateSegments") == 0 && calls("Muxer.createFirstSegment") == 0
+//@   loop 1 invariant track.firstRandomAccessReceived == old(track.firstRandomAccessReceived) && track.stream == old(track.stream) && track.stream.nextSegment == old(track.stream.nextSegment)
+//@   loop 1 invariant forall(i, (0 <= i && i < len(au)) ==> len(au[i]) >= 1)
+//@   ensures calls("muxerSegmentMPEGTS.writeH264") <= 1 && calls("Muxer.rotateSegments") <= 1 && calls("Muxer.createFirstSegment") <= 1
+//@   ensures (!old(track.firstRandomAccessReceived) && !idrIn(au)) ==> (result == nil && calls("muxerSegmentMPEGTS.writeH264") == 0 && calls("Muxer.rotateSegments") == 0 && calls("Muxer.createFirstSegment") == 0)
+//@   ensures calls("Muxer.rotateSegments") == 1 ==> (idrIn(au) && old(track.stream.nextSegment) != nil && callarg("Muxer.rotateSegments", 0, 3) == 0 && callarg("Muxer.rotateSegments", 0, 2) == ntp)
+//@   ensures calls("Muxer.createFirstSegment") == 1 ==> (old(track.stream.nextSegment) == nil && calls("Muxer.rotateSegments") == 0 && callarg("Muxer.createFirstSegment", 0, 2) == ntp)
+//@   ensures (result == nil && idrIn(au) && old(s.pendingParamsChange) && old(track.stream.nextSegment) != nil) ==> calls("Muxer.rotateSegments") == 1
+//@   ensures (result == nil && old(s.pendingParamsChange)) ==> (s.pendingParamsChange || calls("Muxer.rotateSegments") == 1 || calls("Muxer.createFirstSegment") == 1)
+//@   ensures (calls("muxerSegmentMPEGTS.writeH264") == 1 && calls("Muxer.rotateSegments") == 1) ==> callarg("Muxer.rotateSegments", 0, 1) == timestampToDuration(callarg("muxerSegmentMPEGTS.writeH264", 0, 3), track.ClockRate)
+//@   ensures (calls("muxerSegmentMPEGTS.writeH264") == 1 && calls("Muxer.rotateSegments") == 0 && idrIn(au) && old(track.stream.nextSegment) != nil) ==>
+//@        timestampToDuration(callarg("muxerSegmentMPEGTS.writeH264", 0, 3), track.ClockRate) - old(asM(track.stream.nextSegment).startDTS) < s.segmentMinDuration
+//@   ensures calls("muxerSegmentMPEGTS.writeH264") == 1 ==> (callarg("muxerSegmentMPEGTS.writeH264", 0, 1) == track && callarg("muxerSegmentMPEGTS.writeH264", 0, 2) == pts
+//@        && callarg("muxerSegmentMPEGTS.writeH264", 0, 3) <= pts && callarg("muxerSegmentMPEGTS.writeH264", 0, 4) == au)
+//@   ensures result == nil ==> (calls("muxerSegmentMPEGTS.writeH264") == 1 || (!idrIn(au) && (!old(track.firstRandomAccessReceived) || !exists(i, 0 <= i && i < len(au) && mod(au[i][0], 32) == 1))))
+//@   reachable result == nil && calls("Muxer.rotateSegments") == 1 && calls("muxerSegmentMPEGTS.writeH264") == 1
+//@ end
+
+//@ func muxerSegmenter.writeMPEG4Audio#mpegts
+//@   props C01 C02
+//@   role writer
+//@   nosafety
+//@   nocallpre
+//@   requires s.variant == MuxerVariantMPEGTS && track != nil && track.Track != nil && track.ClockRate > 0 && track.stream != nil
+//@   requires s.parent != nil && is(s.parent, *Muxer) && ref(s.parent) != 0
+//@   requires track.stream.nextSegment != nil ==> (isM(track.stream.nextSegment) && ref(track.stream.nextSegment) != 0)
+//@   modifies *
+//@   ensures calls("muxerSegmentMPEGTS.writeMPEG4Audio") <= 1 && calls("Muxer.rotateSegments") <= 1 && calls("Muxer.createFirstSegment") <= 1
+//@   ensures !track.isLeading ==> (calls("Muxer.rotateSegments") == 0 && calls("Muxer.createFirstSegment") == 0)
+//@   ensures (!track.isLeading && old(track.stream.nextSegment) == nil) ==> (result == nil && calls("muxerSegmentMPEGTS.writeMPEG4Audio") == 0)
+//@   ensures (track.isLeading && old(track.stream.nextSegment) != nil && calls("Muxer.rotateSegments") == 1) ==>
+//@        (old(asM(track.stream.nextSegment).audioAUCount) >= 100 && timestampToDuration(pts, track.ClockRate) - old(asM(track.stream.nextSegment).startDTS) >= s.segmentMinDuration)
+//@   ensures (track.isLeading && old(track.stream.nextSegment) != nil && calls("Muxer.rotateSegments") == 0) ==>
+//@        !(old(asM(track.stream.nextSegment).audioAUCount) >= 100 && timestampToDuration(pts, track.ClockRate) - old(asM(track.stream.nextSegment).startDTS) >= s.segmentMinDuration)
+//@   ensures calls("Muxer.rotateSegments") == 1 ==> (callarg("Muxer.rotateSegments", 0, 1) == timestampToDuration(pts, track.ClockRate) && callarg("Muxer.rotateSegments", 0, 2) == ntp && callarg("Muxer.rotateSegments", 0, 3) == 0)
+//@   ensures calls("Muxer.createFirstSegment") == 1 ==> (track.isLeading && old(track.stream.nextSegment) == nil && callarg("Muxer.createFirstSegment", 0, 1) == timestampToDuration(pts, track.ClockRate))
+//@   ensures calls("muxerSegmentMPEGTS.writeMPEG4Audio") == 1 ==> (callarg("muxerSegmentMPEGTS.writeMPEG4Audio", 0, 1) == track && callarg("muxerSegmentMPEGTS.writeMPEG4Audio", 0, 2) == pts && callarg("muxerSegmentMPEGTS.writeMPEG4Audio", 0, 3) == aus)
+//@   ensures result == nil ==> (calls("muxerSegmentMPEGTS.writeMPEG4Audio") == 1 || (!track.isLeading && old(track.stream.nextSegment) == nil))
+//@   reachable result == nil && calls("Muxer.rotateSegments") == 1
 //@ end
